@@ -1,4 +1,5 @@
-import LinOp.C07.ProofsToeplitz
+import LinOp.C07.ProofsSym
+import Mathlib.Tactic.NormNum
 import LinOp.C07.ProofsFunc
 /-!
 C07 — gradients through operators equal gradients through the dense computation.  Property theorems only.
@@ -161,6 +162,50 @@ orthonormal probe set (`Z Zᵀ = I`) — the form the harness checks on the CG p
 theorem logdet_probe_estimator {n : Nat} (Ainv dA Z : Matrix (Fin n) (Fin n) α) (hZ : Z * Zᵀ = 1) :
     Matrix.trace (Zᵀ * (Ainv * dA) * Z) = Matrix.trace (Ainv * dA) :=
   probe_estimator_exact Ainv dA Z hZ
+
+/-- **Concatenated factors** (`Solve.backward`, `InvQuadLogdet.backward`): feeding the concatenated left factors `[L | R]`
+and right factors `−½·[R | L]` ONCE to `_bilinear_derivative` yields, for EVERY operator tree and every parameter
+perturbation, the sum of the two symmetrised terms `−½ (Σ_c l_cᵀ D r_c + Σ_c r_cᵀ D l_c)`, `D = D⟦op⟧_θ[δ]`. -/
+theorem solveBackward_concatenated {n : Nat} (o : Op n n) (θ δ : Param α o) (half : α) {d : Nat} (L R : Mat α n d) :
+    pair o (symmetrisedDeriv o θ half L R) δ
+      = (bilS (dDenote o θ δ) L R + bilS (dDenote o θ δ) R L) * (-half) :=
+  symmetrisedDeriv_pair o θ δ half L R
+
+/-- **Symmetrised solve gradient**: along a perturbation that keeps the matrix symmetric (`D⟦op⟧_θ[δ]` symmetric) and with
+`half + half = 1`, the concatenated call equals the single term `−Σ_c l_cᵀ D r_c` — with `L = A⁻¹G`, `R = A⁻¹B` this is the
+parameter part of `solve_backward_scalar`. -/
+theorem solveBackward_symmetrised {n : Nat} (o : Op n n) (θ δ : Param α o) (half : α) (hh : half + half = 1)
+    (hD : ∀ i j, dDenote o θ δ i j = dDenote o θ δ j i) {d : Nat} (L R : Mat α n d) :
+    pair o (symmetrisedDeriv o θ half L R) δ = - bilS (dDenote o θ δ) L R :=
+  symmetrisedDeriv_symm o θ δ half hh hD L R
+
+/-- **Rebuild from the saved tensors**: `representation_tree()(*representation())` gives back the operator's parameters
+(flat-list form, every operator tree of the model). -/
+theorem rebuild_flatten {n m : Nat} (o : Op n m) (θ : Param α o) (rest : List α) :
+    rebuild o (flat o θ ++ rest) = (θ, rest) :=
+  rebuild_flat o θ rest
+
+/-- **`settings.memory_efficient` is irrelevant, Matmul**: with the flag on (`ctx._linear_op` absent, operator rebuilt from
+the saved tensors) and off (operator object kept), `Matmul.backward` returns the same parameter and rhs gradients. -/
+theorem memoryEfficient_irrelevant_matmul {n m c : Nat} (o : Op n m) (θ : Param α o) (rhs : Mat α m c) (G : Mat α n c) :
+    matmulBackward o (matmulForwardCtx true o θ rhs) G = matmulBackward o (matmulForwardCtx false o θ rhs) G :=
+  matmulBackward_memoryEfficient o θ rhs G
+
+/-- **`settings.memory_efficient` is irrelevant, Solve / InvQuad**: the parameter gradients computed from the saved solves
+with the rebuilt operator equal those computed with the kept operator. -/
+theorem memoryEfficient_irrelevant_solve {n c : Nat} (o : Op n n) (θ : Param α o) (half : α) (X Ls : Mat α n c) :
+    solveBackwardArgs o (solveForwardCtx true o θ X) half Ls = solveBackwardArgs o (solveForwardCtx false o θ X) half Ls :=
+  solveBackward_memoryEfficient o θ half X Ls
+
+/-- The hypotheses of `solveBackward_symmetrised` are satisfiable: `½ + ½ = 1` in ℚ, and a diagonal operator is symmetric
+along every perturbation. -/
+example : ((1 : ℚ) / 2) + 1 / 2 = 1 := by norm_num
+example (θ δ : Param ℚ (.diag 3)) (i j : Fin 3) : dDenote (.diag 3) θ δ i j = dDenote (.diag 3) θ δ j i := by
+  rw [dDenote_diag, dDenote_diag]
+  by_cases h : i = j
+  · subst h; rfl
+  · have h' : ¬ j = i := fun e => h e.symm
+    simp [h, h']
 
 /-- A non-trivial instance of the main theorem's quantifier: a depth-4 nesting through every kind of step. -/
 example : Op 3 3 := .constMul (.matmul (.sum (.toeplitz 3) (.dense 3 3))
